@@ -169,6 +169,9 @@ def check_subject(acc, subj, budget, rng_mode, b, rseed):
                           dict(cfg, history=[[c, list(t)] for c, t in hist]), extra, dict(cfg, history=[[c, list(t)] for c, t in hist]),
                           size=len(hist) * 10)
         acc.outcome((subj.name, F.fp(o)))
+        if len(hist) == 2 and len(acc.samples) < 1:
+            acc.sample({"config": cfg, "state_reached_by (chunk, tape answers)": [[c, list(t)] for c, t in hist],
+                        "judged_in_this_state": {"queries_called_twice": ["".join(q) for q in queries], "continuations": [["".join(c) for c in C] for C in conts[:6]]}})
 
     with warnings.catch_warnings():
         warnings.simplefilter("ignore")
